@@ -132,7 +132,10 @@ class Run:
         self.violations = []      # unlisted, reproduced
         self.known_hits = {}      # key -> description
         self.engine_errors = []
-        self.known = [k for k in load_known() if k.get("property") == pid and k.get("status", "open") == "open"]
+        self.known = [k for k in load_known()
+                      if (k.get("property") == pid or pid in k.get("properties", [])) and k.get("status", "open") == "open"]
+        import shutil
+        shutil.rmtree(os.path.join(EVID, "replays", pid), ignore_errors=True)
 
     # --- counters
     def q(self, verdict, dt=0.0):
@@ -150,9 +153,19 @@ class Run:
     # --- violations
     def violation(self, signature, what, artefact):
         """signature: dict of role keys; matched against known_findings entries (subset match on 'match')."""
+        import re as _re
         for k in self.known:
             m = k.get("match", {})
-            if all(signature.get(a) == b for a, b in m.items()):
+            ok = all(signature.get(a) == b for a, b in m.items())
+            if ok and k.get("requires_features"):
+                ok = set(k["requires_features"]) <= set(signature.get("features", []))
+            if ok and k.get("prql_regex"):
+                ok = bool(_re.search(k["prql_regex"], str((artefact or {}).get("prql", "")), _re.S))
+            if ok and k.get("sql_regex"):
+                ok = bool(_re.search(k["sql_regex"], str((artefact or {}).get("sql", "")), _re.S))
+            if ok and k.get("detail_regex"):
+                ok = bool(_re.search(k["detail_regex"], str((artefact or {}).get("detail", "")), _re.S))
+            if ok:
                 key = k.get("id") or json.dumps(m, sort_keys=True)
                 if key not in self.known_hits:
                     self.known_hits[key] = k.get("what", what)
